@@ -41,6 +41,7 @@ struct Extractor : public RecursiveASTVisitor<Extractor> {
   std::vector<const FunctionDecl *> FnById;
   std::set<int> Emitted;
   std::set<int> Stubbed;
+  std::set<const FunctionDecl *> VirtualNoReturn;
   std::map<const CXXRecordDecl *, int> ClsIds;
   std::vector<const CXXRecordDecl *> ClsById;
   std::set<int> ClsEmitted;
@@ -583,6 +584,7 @@ struct Extractor : public RecursiveASTVisitor<Extractor> {
     F["implicit"] = FD->isImplicit();
     F["defaulted"] = FD->isDefaulted();
     F["noreturn"] = FD->isNoReturn();
+    if (VirtualNoReturn.count(FD->getCanonicalDecl())) F["virtual_noreturn_declared"] = true;
     F["ret"] = typeStr(FD->getReturnType());
     F["variadic_pack"] = false;
     {
@@ -876,6 +878,7 @@ struct Extractor : public RecursiveASTVisitor<Extractor> {
       F["q"] = fnName(FD);
       F["loc"] = locStr(FD->getLocation());
       F["noreturn"] = FD->isNoReturn();
+      if (VirtualNoReturn.count(FD->getCanonicalDecl())) F["virtual_noreturn_declared"] = true;
       F["deleted"] = FD->isDeleted();
       F["trivial"] = FD->isTrivial();
       F["pure"] = FD->isPure();
@@ -895,6 +898,23 @@ struct Extractor : public RecursiveASTVisitor<Extractor> {
   }
 };
 
+// A virtual member declared [[noreturn]] says nothing about its overriders (trompeloeil declares
+// call_matcher_base::report_mismatch [[noreturn]] although the only overrider returns).  clang's CFG
+// builder would cut every path after such a call; drop the attribute before building CFGs so that the
+// caller's loop structure survives, and remember that it was declared.
+struct PrePass : public RecursiveASTVisitor<PrePass> {
+  std::set<const FunctionDecl *> Dropped;
+  bool shouldVisitTemplateInstantiations() const { return true; }
+  bool shouldVisitImplicitCode() const { return false; }
+  bool VisitCXXMethodDecl(CXXMethodDecl *MD) {
+    if (MD->isVirtual() && MD->hasAttr<CXX11NoReturnAttr>()) {
+      MD->dropAttr<CXX11NoReturnAttr>();
+      Dropped.insert(MD->getCanonicalDecl());
+    }
+    return true;
+  }
+};
+
 class Consumer : public ASTConsumer {
   std::string Out;
 
@@ -911,7 +931,10 @@ public:
       llvm::errs() << "tvfacts: cannot open " << Out << ": " << EC.message() << "\n";
       return;
     }
+    PrePass PPass;
+    PPass.TraverseDecl(Ctx.getTranslationUnitDecl());
     Extractor X(Ctx, OS);
+    X.VirtualNoReturn = PPass.Dropped;
     X.TraverseDecl(Ctx.getTranslationUnitDecl());
     // functions whose ids were handed out during traversal may pull in more
     size_t Before;
